@@ -153,6 +153,55 @@ func suiteReattach(c *Ctx) {
 			reattachCase(c, &kk, self, r == 0)
 		}
 	}
+	for r := 0; r < 4; r++ {
+		reattachEmptied(c, r)
+	}
+}
+
+// reattachEmptied: structures that are empty AGAIN (everything removed: zero counters over buckets
+// that still hold cleared slots) or STILL (nothing ever inserted) when a handle is attached.
+// Attaching is a read: it must not change what the creating handle observes, and the new handle
+// must observe the same.
+func reattachEmptied(c *Ctx, round int) {
+	k := raKindByName("cuckoo")
+	if k == nil {
+		return
+	}
+	h0, mk := k.create(c)
+	if h0 == nil || mk == "" {
+		return
+	}
+	c.rep.Cases++
+	f := h0.(cuckooRedis).f
+	var elems [][]byte
+	for i := 0; len(elems) < 2+round && i < 200; i++ {
+		e := []byte(fmt.Sprintf("emptied-%d-%d", c.seed, i))
+		if _, _, _, ok := cuckooPos(e, f.Size(), f.FingerPrintLength()); ok {
+			elems = append(elems, e)
+		}
+	}
+	for _, e := range elems {
+		safely(func() { f.Insert(e, false) })
+	}
+	for _, e := range elems {
+		f.Remove(e)
+	}
+	before := raObserve(k, h0)
+	h1, err := k.attach(mk)
+	if err != nil || h1 == nil {
+		c.fail([]string{"C09"}, "cuckoo-attach-fails", fmt.Sprintf("attach to a filter emptied by Remove failed: %v", err), k.name)
+		return
+	}
+	after, seen := raObserve(k, h0), raObserve(k, h1)
+	if before != after || seen != before {
+		c.fail([]string{"C09", "C13"}, "cuckoo-attach-changes-emptied-filter", fmt.Sprintf("a cuckoo filter with %d elements inserted and all removed: the creating handle observed %.120s before a second handle was attached and %.120s after; the attached handle observes %.120s", len(elems), before, after, seen), map[string]interface{}{"elements": poolHex(elems)})
+		return
+	}
+	safely(func() { h1.(cuckooRedis).f.Insert(elems[0], false) })
+	if a, b := raObserve(k, h0), raObserve(k, h1); a != b || f.Length() != 1 {
+		c.fail([]string{"C09", "C13"}, "cuckoo-attach-changes-emptied-filter", fmt.Sprintf("after one insert through the attached handle the two handles observe %.120s / %.120s, Length %d", a, b, f.Length()), map[string]interface{}{"elements": poolHex(elems)})
+	}
+	c.branch("attached-to-emptied")
 }
 
 func reattachCase(c *Ctx, k *raKind, self string, crossProcess bool) {
